@@ -121,7 +121,8 @@ func TestVerifPoolRun(t *testing.T) {
 		return vwFrame(b)
 	}
 
-	for it := 0; it < count; it++ {
+	hung := 0
+	for it := 0; it < count && hung < 3; it++ { // three lifetimes that never end are verdict enough (each costs its watchdogs)
 		cfg := NewConfig()
 		cfg.Address = "127.0.0.1"
 		cfg.Port = 0
@@ -323,6 +324,7 @@ func TestVerifPoolRun(t *testing.T) {
 		}
 		w.Flush()
 		if !r.ShutdownReturned {
+			hung++
 			// a hung pool keeps its listener: make it let go so that the next iteration is not disturbed
 			p.listenerLock.Lock()
 			if p.listener != nil {
